@@ -194,6 +194,10 @@ impl WriteSource for pr::ExprKind {
                 }
                 for param in &c.named_params {
                     r += opt.consume(&write_ident_part(&param.name))?;
+                    if let Some(ty) = &param.ty {
+                        let ty = ty.write_between(" <", ">", opt.clone())?;
+                        r += opt.consume(&ty)?;
+                    }
                     r += opt.consume(":")?;
                     r += opt.consume(&param.default_value.as_ref().unwrap().write(opt.clone())?)?;
                     r += opt.consume(" ")?;
